@@ -16,21 +16,22 @@ from lib import driver
 from lib.rec import Rec
 
 LEVEL = "exploration"
-RULE = ("Alphabet of ~22 write operations over 6 Sids taken from the live configuration (a file, its sibling differing only by the extension, "
+RULE = ("Alphabet of ~34 write operations over 10 Sids taken from the live configuration (a file, its sibling differing only by the extension, "
         "the nearest two ancestor folders that have a path, a Sid whose type has no path, an untyped Sid) x 2 attribute keys, every written "
         "value unique '<history>.<step>'. Quick: every sequence of length <= 3 (exhaustive) + random sequences up to 40; thorough: length <= 4 "
         "+ more random. After each operation the return value / exception and ALL observables of ALL Sids are compared with the sequential "
-        "model. Non-trivial = distinct operation sequence containing at least one successful write.")
+        "model. Two alphabets (two basetypes) are used, each enumerated by half of the shards. Quick: every sequence of length <= 2 + every 7th of "
+        "length 3; thorough: every sequence of length <= 3 + every 12th of length 4. Non-trivial = distinct operation sequence containing at least one successful write.")
 ASSUME = ["two entities whose paths differ only by the extension may share one data store or not (the statement excludes that pair): both the "
           "own overlay and the merged overlay are accepted for them", "get_data of a Sid without path may be {} or only its 'sid' entry",
           "tree reset between sequences is done by the harness (rmtree of the configured root)"]
-BUDGET = {"quick": (3, 480, 24), "thorough": (4, 9600, 160)}     # (exhaustive length, random sequences, fresh-process reads)
+BUDGET = {"quick": (2, 480, 24, 3, 7), "thorough": (3, 9600, 160, 4, 12)}     # (exhaustive length, random sequences, fresh-process reads, sampled length, 1/k sample)
 NSHARDS = 16
 
 
 def shard_args(tier, seed):
-    L, nrand, nfresh = BUDGET[tier]
-    return [{"L": L, "shard": i, "nshards": NSHARDS, "nrand": nrand // NSHARDS, "nfresh": max(1, nfresh // NSHARDS),
+    L, nrand, nfresh, Ls, kk = BUDGET[tier]
+    return [{"L": L, "Ls": Ls, "sample_k": kk, "shard": i, "nshards": NSHARDS, "nrand": nrand // NSHARDS, "nfresh": max(1, nfresh // NSHARDS),
              "seed": seed * 1000 + i} for i in range(NSHARDS)]
 
 
@@ -39,7 +40,7 @@ def envs(snap, shard_args_list):
 
 
 def floors(m, tier):
-    L, nrand, nfresh = BUDGET[tier]
+    L, nrand, nfresh, Ls, kk = BUDGET[tier]
     c = m.counters
     return {"sequences": (c.get("sequences", 0), 8000 if tier == "quick" else 150000),
             "successful writes": (c.get("ok:set", 0) + c.get("ok:update", 0) + c.get("ok:create", 0), 5000),
@@ -59,13 +60,19 @@ def run(snap, tier, seed, t0, replay):
 
 
 # ------------------------------------------------------------------------------------------- alphabet
-def build_alphabet(lab):
-    """Returns dict role -> entity string, from the live configuration."""
+def build_alphabet(lab, which=0):
+    """Returns dict role -> entity string, from the live configuration. which: index of the basetype whose first leaf type is used."""
     model, vocab, rng = lab.model, lab.vocab, random.Random(7)
     dflt = lab.default_config
     pm = lab.trees.pms[dflt]
     from lib import universe
     leaves = [t for t in universe.leaf_templates(model, vocab) if t.name in pm.templates]
+    bts = []
+    for u in leaves:
+        if model.basetype(u.name) not in bts:
+            bts.append(model.basetype(u.name))
+    bt = bts[which % len(bts)]
+    leaves = [u for u in leaves if model.basetype(u.name) == bt] + [u for u in leaves if model.basetype(u.name) != bt]
     t = leaves[0]
     for _ in range(200):
         f1 = vocab.valid_string(t, rng, pool=["oph.elia", "yor.ick"], small=True)   # (folder names may contain a dot)
@@ -98,6 +105,14 @@ def build_alphabet(lab):
         if model.natural(g) is t and g != f1 and not model.is_search_string(g) and g.split("/")[-1] not in model.alias and g.split("/")[:-1] != segs[:-1]:
             al["G"] = g
             break
+    # the same file in another state (second-to-last level): its file name differs in the middle, not only by the extension
+    info2 = vocab.info[t.name][-2]
+    for v in info2["lits"]:
+        if v != segs[-2]:
+            p_ = "/".join(segs[:-2] + [v, segs[-1]])
+            if model.natural(p_) is t:
+                al["P"] = p_
+                break
     # a movie file next to F1 (its type shares the glob of the cache-file type when the extension is open)
     for u in leaves[1:]:
         if u.keys == t.keys:
@@ -129,6 +144,8 @@ def ops_alphabet(al):
             ops.append(("update", r, "k1"))
         if r in ("F1", "V"):
             ops.append(("setpos", r, "k1"))      # positional form set(sid, attribute, value), falsy values
+        if r in ("F1", "P"):
+            ops.append(("set", r, "sid"))        # an attribute that happens to be called 'sid': the record's own Sid still wins
     return ops
 
 
@@ -197,7 +214,7 @@ def run_sequence(rec, lab, al, ops, hid, fresh=False, config=None):
     writer = WriteToPaths(config)
     getter = GetFromPaths(config)
     finder = FindInPaths(config)
-    case = {"ops": [list(o) for o in ops], "config": config}
+    case = {"ops": [list(o) for o in ops], "config": config, "which": lab.alphabet_which}
     wrote = False
     for step, (op, role, key) in enumerate(ops):
         e = al[role]
@@ -215,6 +232,8 @@ def run_sequence(rec, lab, al, ops, hid, fresh=False, config=None):
                 got = writer.create(e, data) if data else writer.create(e)
             elif op == "setpos":
                 got = writer.set(e, key, val)
+            elif op == "set" and key == "sid":
+                got = writer.set(e, key, val)       # ('sid' is also the name of set()'s first parameter)
             elif op == "set":
                 got = writer.set(e, **data)
             else:
@@ -297,9 +316,11 @@ def worker(args):
     from lib.findlab import Lab
     rec = Rec("C15")
     lab = Lab(args.get("seed", 0))
-    al = build_alphabet(lab)
+    al = build_alphabet(lab, which=args.get("shard", 0) % 2 if "replay" not in args else args["replay"].get("which", 0))
     ops = ops_alphabet(al)
     rng = lab.rng
+    lab.alphabet_which = args.get("shard", 0) % 2 if "replay" not in args else args["replay"].get("which", 0)
+    rec.count("alphabet:" + lab.model.basetype(lab.model.natural(al["F1"]).name))
     if "replay" in args:
         c = args["replay"]
         rec.ev()
@@ -308,10 +329,11 @@ def worker(args):
         return rec.result()
     rec.sample({"alphabet": al, "operations": len(ops)})
     n = 0
+    stride = max(1, args["nshards"] // 2)      # two alphabets: each is enumerated by half of the shards
     for L in range(1, args["L"] + 1):
         for seq in itertools.product(range(len(ops)), repeat=L):
             n += 1
-            if n % args["nshards"] != args["shard"]:
+            if n % stride != args["shard"] // 2:
                 continue
             rec.ev()
             rec.count("sequences")
@@ -319,6 +341,18 @@ def worker(args):
             sq = [ops[i] for i in seq]
             if run_sequence(rec, lab, al, sq, "h%d" % n):
                 rec.nt(repr(seq))
+    # one level deeper, sampled
+    n = 0
+    rs = random.Random(args.get("seed", 0))
+    for seq in itertools.product(range(len(ops)), repeat=args.get("Ls", 3)):
+        n += 1
+        if n % stride != args["shard"] // 2 or rs.randrange(args.get("sample_k", 7)):
+            continue
+        rec.ev()
+        rec.count("sequences")
+        rec.count("sampled_longer_sequences")
+        if run_sequence(rec, lab, al, [ops[i] for i in seq], "s%d" % n):
+            rec.nt(repr(seq))
     for r in range(args["nrand"]):
         L = rng.randint(4, 40)
         sq = [rng.choice(ops) for _ in range(L)]
